@@ -23,8 +23,12 @@ def K(n):
     return {"t": "k", "c": C(n)}
 
 
-def M(mods, ks):
-    return {"t": "m", "mods": [C(m) for m in mods], "ks": [C(k) for k in ks]}
+def M(mods, ks, pfx=None):
+    """modifier chord; pfx = the prefixes as written (default: the canonical one per modifier), e.g. RA- for ralt"""
+    it = {"t": "m", "mods": [C(m) for m in mods], "ks": [C(k) for k in ks]}
+    if pfx:
+        it["pfx"] = list(pfx)
+    return it
 
 
 def O(ks):
@@ -50,7 +54,7 @@ def item_text(it):
     if it["t"] == "k":
         return kname(it["c"])
     if it["t"] == "m":
-        p = "".join(PFX[kname(m)] for m in it["mods"])
+        p = "".join(it["pfx"]) if it.get("pfx") else "".join(PFX[kname(m)] for m in it["mods"])
         ks = [kname(k) for k in it["ks"]]
         return p + (ks[0] if len(ks) == 1 else "(" + " ".join(ks) + ")")
     return "O-(" + " ".join(kname(k) for k in it["ks"]) + ")"
@@ -58,6 +62,23 @@ def item_text(it):
 
 def def_text(d):
     return "(" + " ".join(item_text(i) for i in d) + ")"
+
+
+# (prefix as written, the physical modifier key): parser/src/cfg/mod.rs modifier prefix table
+MOD_PREFIXES = [("S-", "lsft"), ("RS-", "rsft"), ("C-", "lctl"), ("RC-", "rctl"), ("A-", "lalt"), ("AG-", "ralt"),
+                ("RA-", "ralt"), ("M-", "lmet"), ("RM-", "rmet")]
+MOD_KEYS = ["lsft", "rsft", "lctl", "rctl", "lalt", "ralt", "lmet", "rmet"]
+
+
+def modifier_defs():
+    """definitions exercising every modifier prefix and every plain modifier key"""
+    ds = [[K("a")], [K("a"), K("b")]]
+    for pf, k in MOD_PREFIXES:
+        ds.append([M([k], ["a"], [pf])])
+        ds.append([M([k], ["a", "b"], [pf])])
+    for k in MOD_KEYS:
+        ds.append([K(k), K("a")])
+    return ds
 
 
 TAB_PRE = "(defsrc a)\n(deflayer l0 a)\n(defvirtualkeys v1 x v2 y v3 z)\n"
@@ -259,6 +280,10 @@ def part1(res, tier, rng, wd):
                  "all tables of <=2 definitions of <=3 items over {a, b, S-a, S-(a b), O-(a b)}; 20000 seeded tables of 3 such definitions"),
                 ("l3o", d3o, [(2, list(range(1, len(d3o) + 1)))], [],
                  "all tables of <=2 definitions of <=3 items over {a, O-(a b), O-(a b c)}")]
+    md = modifier_defs()
+    plan.append(("mods", md, [(2, list(range(1, len(md) + 1)))], [],
+                 "all tables of <=2 definitions among: X-a, X-(a b) for every modifier prefix S- RS- C- RC- A- AG- RA- M- RM-, "
+                 "(k a) for every plain modifier key k, (a), (a b)"))
     for name, defs, plans, extra, what in plan:
         tj, n, ndcex = tables_level(res, wd, name, defs, plans, extra, stats)
         to_judge += tj
@@ -344,16 +369,32 @@ def replay_table(r, path, wd):
 
 
 # ------------------------------------------------------------------ part 2: run time
+MODES = ["hidden-suppressed", "hidden-delay-type", "visible-backspaced"]
 VK_OUT = ["x", "y", "z", "1", "2", "3", "4", "5", "6", "7"]
 
 
-def seq_instance(name, defs, mode, T=3, always=False, leader=True, keys=("a", "b"), modcancel=True, qmax=2, bound=None):
-    """defs: list of item lists (definition i -> virtual key v<i+1> -> output key VK_OUT[i])."""
+LEADER_FORMS = ["sldr", "seq", "seqmode"]
+
+
+def seq_instance(name, defs, mode, T=3, always=False, leader=True, keys=("a", "b"), modcancel=True, qmax=2, bound=None,
+                 lform="sldr"):
+    """defs: list of item lists (definition i -> virtual key v<i+1> -> output key VK_OUT[i]).
+    mode / T = the input mode and timeout IN FORCE when the leader is pressed (monitor parameters).  lform = how the
+    leader is written: "sldr" (defcfg values), "seq" = (sequence T): timeout override, mode from defcfg,
+    "seqmode" = (sequence T mode): both overridden, defcfg names another mode and another timeout."""
     ks = (["l"] if leader else []) + list(keys)
     layer = {k: {"t": "key", "k": k} for k in keys}
-    if leader:
-        layer["l"] = {"t": "raw", "text": "sldr"}
     dc = {"sequence-timeout": T, "sequence-input-mode": mode}
+    if leader:
+        if lform == "sldr":
+            layer["l"] = {"t": "raw", "text": "sldr"}
+        elif lform == "seq":
+            layer["l"] = {"t": "raw", "text": "(sequence %d)" % T}
+            dc["sequence-timeout"] = T + 5
+        else:
+            layer["l"] = {"t": "raw", "text": "(sequence %d %s)" % (T, mode)}
+            dc["sequence-timeout"] = T + 5
+            dc["sequence-input-mode"] = MODES[(MODES.index(mode) + 1) % 3]
     if always:
         dc["sequence-always-on"] = "yes"
     if not modcancel:
@@ -383,10 +424,10 @@ def family(tier):
     fam = [
         ("hs_ab_oab", [ab, oab], "hidden-suppressed", {}),
         ("hd_ab_ba", [ab, [K("b"), K("a")]], "hidden-delay-type", {"T": 3}),
-        ("vb_ab_oab", [ab, oab], "visible-backspaced", {"T": 2}),
+        ("vb_ab_oab", [ab, oab], "visible-backspaced", {"T": 2, "lform": "seq"}),
         ("hd_on_ab_bba", [ab, [K("b"), K("b"), K("a")]], "hidden-delay-type", {"always": True, "leader": False}),
         ("vb_sa", [sa, [K("a"), K("lsft")]], "visible-backspaced", {"keys": ("lsft", "a"), "T": 2}),
-        ("hd_sa", [sa, [K("a"), K("a")]], "hidden-delay-type", {"keys": ("lsft", "a"), "T": 2}),
+        ("hd_sa", [sa, [K("a"), K("a")]], "hidden-delay-type", {"keys": ("lsft", "a"), "T": 2, "lform": "seqmode"}),
     ]
     if tier != "quick":
         fam += [
@@ -395,7 +436,10 @@ def family(tier):
             ("hd_sab", [[M(["lsft"], ["a", "b"])], [K("lsft"), K("b")]], "hidden-delay-type",
              {"keys": ("lsft", "a", "b"), "modcancel": False, "T": 2}),
             ("hs_T1", [ab], "hidden-suppressed", {"T": 1}),
-            ("hd_T3", [ab, oab], "hidden-delay-type", {"T": 3}),
+            ("hd_T3", [ab, oab], "hidden-delay-type", {"T": 3, "lform": "seq"}),
+            ("hs_seqmode", [ab, [K("b"), K("a")]], "hidden-suppressed", {"T": 2, "lform": "seqmode"}),
+            ("vb_aga", [[M(["ralt"], ["a"])], [K("a"), K("ralt")]], "visible-backspaced", {"keys": ("ralt", "a"), "T": 2}),
+            ("hd_ca", [[M(["lctl"], ["a"])], [K("lalt"), K("a")]], "hidden-delay-type", {"keys": ("lctl", "lalt", "a"), "T": 2}),
             ("vb_T3", [ab, [K("b"), K("a")]], "visible-backspaced", {"T": 3}),
             ("vb_abc", [[K("a"), K("b"), K("c")], [K("b"), K("c")]], "visible-backspaced", {"keys": ("a", "b", "c"), "T": 2}),
             ("hs_oabc", [[O(["a", "b", "c"])], [K("a"), K("b")]], "hidden-suppressed", {"keys": ("a", "b", "c"), "T": 2}),
@@ -462,7 +506,6 @@ Next == \/ ph = 0 /\ t = 0 /\ \E j \in DOMAIN Tables : t' = j /\ ph' = 0
 ====
 """
 
-MODES = ["hidden-suppressed", "hidden-delay-type", "visible-backspaced"]
 # the table of the repository's overlap tests (src/tests/sim_tests/seq_sim_tests.rs OVERLAP_CFG), with and without
 # the definition its comment calls a "KNOWN BUGGY CASE"
 REPO_OVERLAP = [[O(["a", "b"])], [K("a"), K("b")], [O(["c", "d"]), K("e")], [K("c"), K("d"), K("e")],
@@ -532,6 +575,10 @@ def history_tables(tier, rng, wd):
              [[O(["a", "b"]), K("a")], [K("b"), K("a"), K("c")]],
              [[K("b"), K("a"), O(["a", "b", "c"])], [O(["a", "b"]), M(["lsft"], ["a", "b"]), K("a")]],
              [[K("a"), O(["a", "b", "c"])], [O(["a", "b"]), M(["lsft"], ["a"])]],
+             # every modifier prefix / plain modifier key the parser accepts in defseq, typed with its physical key
+             ] + [[[M([k], ["a"], [pf])], [K("b"), K("a")]] for pf, k in MOD_PREFIXES] + \
+            [[[M([k], ["a", "b"], [pf])], [K("b")]] for pf, k in MOD_PREFIXES[2::2]] + \
+            [[[K(k), K("a")], [K("b")]] for k in MOD_KEYS] + [
              # right-hand modifiers named in a definition
              [[M(["rsft"], ["a"])], [K("b"), K("a")]],
              [[K("rctl"), K("a")], [M(["rmet"], ["b"])]]]
@@ -553,10 +600,13 @@ def typing_histories(res, tier, rng, wd):
         mode = MODES[i % 3] if i >= 2 else "visible-backspaced"      # the repository tests use visible-backspaced
         # sequence-always-on feeds the virtual key's own output back into the mode, so with hidden-suppressed the
         # observation channel (the output key) is itself suppressed: always-on only with the other two modes
-        always = i >= 12 and i % 4 == 3 and mode != "hidden-suppressed"
+        nfixed = 12 + len(MOD_PREFIXES) + len(MOD_PREFIXES[2::2]) + len(MOD_KEYS)
+        always = i >= nfixed and i % 4 == 3 and mode != "hidden-suppressed"
+        lform = LEADER_FORMS[(i // 3) % 3] if i >= 2 else "sldr"
         codes = table_codes(t)
         names = [kname(c) for c in codes] + ["q"]
-        inst, params, kbd = seq_instance("h%d" % i, t, mode, T=T, always=always, leader=not always, keys=tuple(names))
+        inst, params, kbd = seq_instance("h%d" % i, t, mode, T=T, always=always, leader=not always, keys=tuple(names),
+                                         lform=lform)
         lead = [] if always else [["d", C("l")], ["t", 1], ["u", C("l")], ["t", 1]]
         ent.append({"tb": t, "lead": lead, "f": C("q"), "waits": {T - 3, T - 2, T - 1}, "tail": T + 6})
         metas.append((kbd, params, t, mode, always))
@@ -681,9 +731,11 @@ def run(tier, seed):
         "(SeqTab!StJudge).  Part 2 (run time): (a) TLC explores L1 (Kanata.tla + SeqMode.tla, constants from the parser "
         "dump incl. the trie) || P_C12 for every physically consistent history over the leader and the sequence keys "
         "(<= 2 pending inputs, every gap, typed keys bounded) per instance (three input modes, always-on, O-(..) and S-(..) "
-        "definitions, T in 1..3); every model transition is replayed on the real code incl. the SequenceState projection; "
+        "definitions, T in 1..3; the leader written as sldr, (sequence T) or (sequence T mode) with defcfg naming other "
+        "values - the monitor gets the mode and timeout in force); every model transition is replayed on the real code incl. the SequenceState projection; "
         "model-level counterexamples, continuations of drifting histories and random histories (gaps around T) are "
-        "recorded from the code and validated by TLC against P_C12.  (b) For fixed and seeded accepted tables TLC "
+        "recorded from the code and validated by TLC against P_C12.  (b) For fixed tables (incl. one per modifier prefix S- RS- C- RC- A- AG- RA- M- RM- and "
+        "per plain modifier key, typed with the physical key) and seeded accepted tables, leader forms in rotation, TLC "
         "enumerates the typing histories of spec/SeqEnv.tla (every definition in every permitted order, every proper "
         "beginning followed by a foreign key - also inside S-/O- items -, pauses of T-3..T-1 ticks at every item boundary, "
         "the leader again at every boundary); they are run on the real code and the traces validated by TLC against P_C12.",
